@@ -186,6 +186,10 @@ type Result struct {
 	Abandoned bool     // ended early by the chooser (state already covered)
 	Panic     string   // non-sentinel panic in a thread
 	Internal  string   // a model capacity was exceeded (not a property violation)
+	// TimersBeyondHorizon is the number of timers still pending when the execution got stuck: with
+	// 0 every goroutine is blocked for good (the Go runtime would abort with "all goroutines are
+	// asleep"); otherwise the program is still ticking beyond the virtual-time horizon.
+	TimersBeyondHorizon int
 	Trace     []Step
 	EndClock  int64
 	Threads   int
@@ -653,6 +657,7 @@ func (s *Sched) pickNext(from *Thread) *Thread {
 				continue
 			}
 			s.res.Stuck = true
+			s.res.TimersBeyondHorizon = len(s.timers)
 			for _, t := range s.threads {
 				if !t.done {
 					s.res.StuckInfo = append(s.res.StuckInfo, t.String()+": "+t.desc)
